@@ -168,10 +168,13 @@ class ObjExec(AbsExec):
                 continue
             key = (c.qualname, name)
             if key not in self.enum_members:
-                try:
-                    val = self.ev(node, {})
-                except Unknown:
-                    val = Opaque(f"{c.qualname}.{name}")
+                if isinstance(node, ast.Call) and isinstance(node.func, (ast.Attribute, ast.Name)) and (getattr(node.func, "attr", None) == "auto" or getattr(node.func, "id", None) == "auto"):
+                    val: Any = len(out) + 1  # enum.auto(): 1, 2, 3, ... in the order of definition
+                else:
+                    try:
+                        val = self.ev(node, {})
+                    except Unknown:
+                        val = Opaque(f"{c.qualname}.{name}")
                 if isinstance(val, tuple) and len(val) == 2 and val[0] == "builtin":  # enum.auto()
                     val = len(out) + 1
                 self.enum_members[key] = MObj(c.qualname, {"name": name, "value": val, "__enum__": True, "__bases__": ("Enum",)})
@@ -267,6 +270,16 @@ class ObjExec(AbsExec):
             return self.fstring(e, env)[0]
         if isinstance(e, ast.Compare) and len(e.ops) == 1 and isinstance(e.ops[0], (ast.Eq, ast.NotEq)):
             a, b = self.ev(e.left, env), self.ev(e.comparators[0], env)
+            if isinstance(a, (FuncV, Opaque)) or isinstance(b, (FuncV, Opaque)):
+                if isinstance(a, FuncV) and isinstance(b, FuncV):
+                    r = a.fi is b.fi
+                elif isinstance(a, Opaque) and isinstance(b, Opaque) and a.what == b.what == "object.__init__":
+                    r = True
+                elif (isinstance(a, FuncV) and isinstance(b, Opaque) and b.what == "object.__init__") or (isinstance(b, FuncV) and isinstance(a, Opaque) and a.what == "object.__init__"):
+                    r = False
+                else:
+                    raise self.unknown(e, f"comparison of {a!r} with {b!r}")
+                return r if isinstance(e.ops[0], ast.Eq) else not r
             if isinstance(a, (MObj, ClassV, Sym, App, type(None))) or isinstance(b, (MObj, ClassV, Sym, App, type(None))) or (isinstance(a, float) and isinstance(b, float)):
                 r = self.equal(a, b, e)
                 return r if isinstance(e.ops[0], ast.Eq) else not r
@@ -482,6 +495,8 @@ class ObjExec(AbsExec):
         return self.to_str(val, e)
 
     def attr(self, v: Any, name: str, e: ast.AST) -> Any:
+        if type(v).__name__ == "Match" and type(v).__module__ == "re":
+            return ("bound", v, name)
         if isinstance(v, Arr):
             if name == "T":
                 return v.transpose()
@@ -514,6 +529,8 @@ class ObjExec(AbsExec):
                 if "classmethod" in f.decorators:
                     return FuncV(f, bound=v)
                 return FuncV(f)  # unbound: self is passed explicitly
+            if name == "__init__":
+                return Opaque("object.__init__")  # no constructor in the class hierarchy
             ca = c.lookup_class_attr(name)
             if ca is not None:
                 return self.ev(ca, {"<class>": c.qualname})
@@ -522,6 +539,10 @@ class ObjExec(AbsExec):
             if name == "__name__":
                 return v.fi.name
             raise self.unknown(e, "attribute of a function")
+        if hasattr(v, "model_name") and name == "__name__":
+            return v.model_name
+        if v == ("builtin", "object") and name == "__init__":
+            return Opaque("object.__init__")
         if isinstance(v, MObj) and self.class_of(v) is not None:
             c = self.class_of(v)
             assert c is not None
@@ -624,6 +645,14 @@ class ObjExec(AbsExec):
                 return type(args[0])(args[0])
             if what in ("typing.cast", "cast") and len(args) == 2:
                 return args[1]
+            if what.startswith("re.") and what[3:] in ("sub", "subn", "split", "findall", "match", "fullmatch", "search", "escape") and \
+                    all(isinstance(a_, (str, int)) for a_ in list(args) + list(kw.values())):
+                import re as _re  # regular expressions on concrete strings: a pure function of the standard library, by its documented meaning
+
+                try:
+                    return getattr(_re, what[3:])(*args, **kw)
+                except _re.error:
+                    raise Raised("re.error", e) from None
             if what.startswith("np."):  # numpy is uninterpreted: the result is a value nothing is known about
                 from .absexec import freeze
                 return App(what, tuple(freeze(a) for a in args), tuple(sorted((k, freeze(x)) for k, x in kw.items())))
@@ -835,6 +864,8 @@ class ObjExec(AbsExec):
     def truth(self, v: Any, e: ast.AST) -> bool:
         if isinstance(v, str):
             return bool(v)
+        if type(v).__name__ == "Match" and type(v).__module__ == "re":
+            return True
         if isinstance(v, float) and v != v:
             return True
         if isinstance(v, MObj) and self.class_of(v) is not None and "__bool__" not in v.fields:
@@ -855,7 +886,7 @@ class ObjExec(AbsExec):
         if isinstance(v, (ClassV, FuncV)):
             return True
         if isinstance(v, Sym):
-            raise self.unknown(e, "truth value of a symbolic number")
+            return True  # a generic number: different from every constant, zero included
         return super().truth(v, e)
 
     def contains(self, c: Any, x: Any, e: ast.AST) -> bool:
@@ -875,6 +906,8 @@ class ObjExec(AbsExec):
         return super().contains(c, x, e)
 
     def method(self, recv: Any, name: str, args: list[Any], kw: dict[str, Any], e: ast.AST) -> Any:
+        if type(recv).__name__ == "Match" and type(recv).__module__ == "re" and name in ("group", "groups", "start", "end", "span", "groupdict"):
+            return getattr(recv, name)(*args)
         if isinstance(recv, Arr):
             if name in ("flatten", "ravel") and not args:
                 return Arr(recv.flat(), 1)
@@ -953,6 +986,16 @@ class ObjExec(AbsExec):
                 cls = f.id
                 if cls in BUILTIN_EXC or cls.endswith(("Error", "Exception")):
                     raise Raised(cls, s)
+        if isinstance(s, (ast.Import, ast.ImportFrom)):
+            for a in s.names:
+                nm = a.asname or a.name.split(".")[0]
+                if nm in self.globals:
+                    continue  # the analysis supplies a model of this name
+                if nm in self.alias or nm in self.simple or any(q == nm and f.cls is None for q, f in self.p.functions.items()):
+                    env.pop(nm, None)  # a class / function of the package: resolved by name
+                    continue
+                env[nm] = Opaque(a.name if isinstance(s, ast.Import) else nm)
+            return
         if isinstance(s, ast.ClassDef):
             raise self.unknown(s, "local class")
         if isinstance(s, ast.With):
